@@ -100,7 +100,18 @@ let () =
 let ekind v = match str v with
   | "STATE" -> RefExpand16.KState | "EVENT" -> RefExpand16.KEvent | "ACTION" -> RefExpand16.KAction | "GUARD" -> RefExpand16.KGuard
   | "STRUCT" -> RefExpand16.KStruct | "PROTOMSG" -> RefExpand16.KProto | "MSG" -> RefExpand16.KMsg | _ -> failwith "ekind"
+(* nested transition block: [ "TB" ib ie [ titem* ] ]   titem ::= [ "TL" line ] | [ "TE" ib ie [ eitem* ] ]
+   eitem ::= [ "EL" line ] | [ "EG" ib ie [ line* ] ] *)
+let eitem v = match lst v with
+  | [k; l] when str k = "EL" -> RefExpand16.ELine (uline l)
+  | [k; ib; ie; body] when str k = "EG" -> RefExpand16.EGuard (str ib, str ie, ulines body)
+  | _ -> failwith "eitem"
+let titem v = match lst v with
+  | [k; l] when str k = "TL" -> RefExpand16.TLine (uline l)
+  | [k; ib; ie; body] when str k = "TE" -> RefExpand16.TEvent (str ib, str ie, List.map eitem (lst body))
+  | _ -> failwith "titem"
 let item16 v = match lst v with
+  | [k; ib; ie; body] when str k = "TB" -> RefExpand16.TransBlock (str ib, str ie, List.map titem (lst body))
   | [k; s] when str k = "X" -> RefExpand16.Text (str s)
   | [k; kd; body] when str k = "B" -> RefExpand16.Block (ekind kd, "", "", ulines body)
   | [k; kd; ib; ie; body] when str k = "B" -> RefExpand16.Block (ekind kd, str ib, str ie, ulines body)
